@@ -85,6 +85,22 @@ CHECKS = {
               "vs joint distances on arbitrary plate-pose pairs, invariance under a common rigid motion, and for every in-workspace "
               "pose accepted without corrective action the FK round trip with both solvers from the neutral pose (1e-3 h)."),
         ref="DESIGN.md section 5 / C09"),
+    "C10": dict(
+        technique="runtime monitoring: class invariants after every call of generated operation histories with out-of-workspace faults",
+        text=("320 (quick) / 6e3 (thorough) histories of up to 25 operations (IK in/out of workspace, FK in/out of stroke with both "
+              "solvers and reversed, move, spinCustom, validate, Jacobian/force queries, randomPos) under all 16 validation-switch "
+              "subsets; after every call the published plates, joints, lengths and relative transform are checked for coherence "
+              "(1e-9), a returned 'valid' is re-evaluated independently against every enabled constraint, pure queries must leave "
+              "the plates bit-identical and any exception (RecursionError included) is a violation.  The corrective paths reached are "
+              "histogrammed in the evidence."),
+        ref="DESIGN.md section 5 / C10"),
+    "C11": dict(
+        technique="runtime monitoring: finite-difference (Richardson) oracle on the platform's own IK + static-equilibrium identities",
+        text=("400 (quick) / 2e4 (thorough) generated (geometry, base, optional move/spin, in-workspace pose with cond <= 1e4, twist, "
+              "wrench, masses, gravity) cases: inverseJacobian . V against the Richardson derivative of the IK leg lengths along "
+              "exp([V]t).top (1e-6), and Jinv^T tau = W for staticForces, staticForcesInv, sumActuatorWrenches = -W, the body-frame "
+              "pair, and carryMassCalc with the plate and shaft weights at their centres of gravity (1e-8)."),
+        ref="DESIGN.md section 5 / C11"),
     "C12": dict(
         technique="runtime monitoring: reference-oracle monitor (own adjoint) over generated frames/operands",
         text=("Frame-change group action, recorded frame, pairing invariance, p x f moment and zero moment at the "
